@@ -50,6 +50,15 @@ func c10TanHook(ldb raftio.ILogDB, name string, rep verifc10.Rep) {
 	if err != nil {
 		panic(err)
 	}
+	if name == "delete-obsolete" {
+		// what the background delete worker does when it gets to run (it is
+		// notified by every compaction; here one run of it is placed at a fixed
+		// point of the workload so that its file removals are in the journal)
+		if err := d.deleteObsoleteFiles(); err != nil {
+			panic(err)
+		}
+		return
+	}
 	d.mu.Lock()
 	defer d.mu.Unlock()
 	switch name {
